@@ -174,6 +174,7 @@ func runC03(c *Ctx) {
 		}
 		c.check(!bad, "R1", "no-rule-on-partial-value", p.InstrPos(r), "no rule or selector is evaluated after a failed Decode", "an evaluation call is reachable with a failed Decode")
 	}
+	c.shared("R7", "C04/R15", "a stream of values is processed like its values one after another: every object and array read from the input is built from storage of its own (no map or cell shared between values, through which a member written for one value shows up in a later one)", keyHas("value-construction"), func(s *Ctx) { newValueTable(s, "R15") })
 	c.shared("R6", "C02/R4", "each complete value is fully processed: the pattern rules run once for every root that is not an array (a top-level null, number or string included) and once per element of an array root", keyHas("other-root-once", "array-root-per-element"), c02R4)
 	c.shared("R5", "C02/R2", "a fault in the input is reported only if the input is read: no successful return of EvalProgram precedes the file loop (other than on `exit`)", keyHas("success-return"), c02R2)
 	// R2 process-in-loop
